@@ -10,6 +10,7 @@ from mc.engine.seams import Canon, reset_library, public_snapshot, new_model
 import copy
 import itertools
 import logging
+import math
 import pickle
 
 import numpy as np
@@ -39,9 +40,15 @@ LATE_POOL = [('b', 'b', 0), ('L2', 'L2', 0, 'start2'), ('a', 'a', 0), ('c', 'c',
 END_POOL = [('b', 'b', 0), ('E1', 'E1', 0, 'end1'), ('a', 'a', 0), ('c', 'c', 1), ('F0', 'F0', 1, 'end0')]
 # priorities re-assigned while the system is NOT registered (op 'reprio'): the next registration goes by the new value;
 # removal through the system's own clean_up() (op 'cleanup')
+# systems that run every second / third timestep among equals that run every timestep
+FREQ_POOL = [('a', 'a', 0), ('P2', 'P2', 0, 'freq2'), ('b', 'b', 0), ('Q3', 'Q3', 1, 'freq3'), ('c', 'c', 1)]
 REPRIO_POOL = [('a', 'a', 0), ('b', 'b', 0), ('c', 'c', 1), ('d', 'd', 1)]
 REPRIO = [['a', 2], ['a', 0], ['b', 1], ['b', -1]]
 BIG = 10 ** 6
+
+
+def freq_of(entry):
+    return int(entry[3][4:]) if len(entry) > 3 and entry[3].startswith('freq') else 1
 
 
 def window(entry):
@@ -159,12 +166,15 @@ class Harness:
                 o = Rec(key, sid, w.model, decode_prio(prio), start=int(entry[3][5:]))
             elif len(entry) > 3 and entry[3].startswith('end'):
                 o = Rec(key, sid, w.model, decode_prio(prio), end=int(entry[3][3:]))
+            elif len(entry) > 3 and entry[3].startswith('freq'):
+                o = Rec(key, sid, w.model, decode_prio(prio), frequency=int(entry[3][4:]))
             else:
                 o = Rec(key, sid, w.model, decode_prio(prio))
             w.objs[key] = o
             w.prio[key] = int(o.priority)   # the collector's default is read off the real object: "default -1" is
             #                            asserted separately below
         w.win = {e[0]: window(e) for e in self.pool}
+        w.freq = {e[0]: freq_of(e) for e in self.pool}
         w.t = 0
         w.ref = []          # list of (priority, seq, key)
         w.seq = 0
@@ -278,7 +288,7 @@ class Harness:
                                 observed=list(w.log2))
             got = tuple(w.log)
             order = [k for _, _, k in sorted(w.ref, key=lambda r: (-r[0], r[1]))]
-            exp = tuple(k for k in order if w.win[k][0] <= w.t <= w.win[k][1])   # those whose window is open in this timestep
+            exp = tuple(k for k in order if w.win[k][0] <= w.t <= w.win[k][1] and w.t % w.freq[k] == 0)   # those due in this timestep
             w.t += 1
             w.last = got
             if got != exp:
@@ -291,7 +301,7 @@ class Harness:
             clone = copy.deepcopy(w.model)
             del w.log[:]
             clone.execute()
-            exp = tuple(k for k in order if w.win[k][0] <= w.t <= w.win[k][1])       # the copy runs the NEXT timestep
+            exp = tuple(k for k in order if w.win[k][0] <= w.t <= w.win[k][1] and w.t % w.freq[k] == 0)   # the copy runs the NEXT timestep
             if tuple(w.log) != exp:
                 raise Violation('a deep copy of the model runs its systems in another order than (descending priority, '
                                 'registration order of the model it was copied from)', expected=list(exp),
@@ -323,8 +333,11 @@ class Harness:
     def refstate(self, w):
         # registration order and scheduling order; sequence numbers only matter relative to each other
         edges = [v for win in w.win.values() for v in win if v < BIG]
+        period = 1
+        for f in w.freq.values():
+            period = period * f // math.gcd(period, f)
         return (tuple(k for _, _, k in w.ref), tuple(k for _, _, k in sorted(w.ref, key=lambda r: (-r[0], r[1]))),
-                min(w.t, max(edges) + 1), tuple(sorted(w.prio.items())) if self.reprio else (),
+                min(w.t, max(edges) + 1), w.t % period, tuple(sorted(w.prio.items())) if self.reprio else (),
                 tuple(sorted((k, v[1]) for k, v in w.win.items())))
 
     def outcome(self, w):
@@ -792,6 +805,7 @@ def _run(ctx):
     # the small pools first: a change that adds hidden state makes the big pools slow
     for name, pool, kw in (('own_ordering', LT_POOL, {'cleanup': True}), ('late_start', LATE_POOL, {}),
                            ('numbered_ids', INT_POOL, {'cleanup': True}), ('closing_windows', END_POOL, {}),
+                           ('frequencies', FREQ_POOL, {}),
                            ('reassigned_priorities', REPRIO_POOL, {'cleanup': True, 'reprio': REPRIO})):
         hp = Harness(pool, **kw)
         r = hbfs.explore(ctx, hp, name, max_depth=40, procs=ctx.procs)
